@@ -208,7 +208,8 @@ func (c *mockCtl) LoadCommittee(_, _ uint64) (lib.ValidatorSet, lib.ErrorI) {
 	return *c.w.vs, nil
 }
 func (c *mockCtl) LoadCommitteeData() (*lib.CommitteeData, lib.ErrorI) {
-	return &lib.CommitteeData{ChainId: ChainID, LastRootHeightUpdated: c.w.Cfg.BaseRH - 1, LastChainHeightUpdated: 0}, nil
+	// the chain last certified a block at the root height the world starts at (the normal case while the root chain has not advanced)
+	return &lib.CommitteeData{ChainId: ChainID, LastRootHeightUpdated: c.w.Cfg.BaseRH, LastChainHeightUpdated: 0}, nil
 }
 func (c *mockCtl) LoadLastProposers(uint64) (*lib.Proposers, lib.ErrorI) {
 	return &lib.Proposers{Addresses: [][]byte{bytes.Repeat([]byte{1}, 20), bytes.Repeat([]byte{2}, 20)}}, nil
